@@ -380,6 +380,18 @@ impl St {
                 };
                 S::tag("ok", self.push(r))
             }
+            "withextra" => {
+                let a = self.regs[l[1].idx()].clone();
+                let ex = ExtraName::from_str(&l[2].string()).expect("harness: extra name");
+                let req = Requirement::<VerbatimUrl> {
+                    name: PackageName::from_str("x").unwrap(),
+                    extras: vec![],
+                    version_or_url: None,
+                    marker: a,
+                    origin: None,
+                };
+                S::tag("ok", self.push(req.with_extra_marker(&ex).marker))
+            }
             // ---- observations
             "dump" => S::tag("ok", vec![tree(&self.regs[l[1].idx()])]),
             "flags" => {
